@@ -22,18 +22,20 @@ import math
 import os
 import time
 from fractions import Fraction
+import struct
 
 os.environ['TZ'] = 'VRF-05:45'
 time.tzset()
 
 import common  # noqa: E402
+import floatref  # noqa: E402
 import pyfacts  # noqa: E402
 import yaql  # noqa: E402
 from dateutil import tz as dtz  # noqa: E402
 from yaql.language import factory  # noqa: E402
 
 ID = 'C20'
-LEAN_MODULES = ['Yaql.Props.C20', 'Yaql.Props.C20Cal', 'Yaql.Props.C20Gen']
+LEAN_MODULES = ['Yaql.Props.C20', 'Yaql.Props.C20Cal', 'Yaql.Props.C20Gen', 'Yaql.Props.C20Float', 'Yaql.Props.FloatRound']
 REQUIRED_THEOREMS = [
     'Yaql.Props.C20.add_sub', 'Yaql.Props.C20.compare_instants', 'Yaql.Props.C20.utc_same_instant',
     'Yaql.Props.C20.timestamp_roundtrip', 'Yaql.Props.C20.naive_is_utc', 'Yaql.Props.C20.naive_is_utc_fields',
@@ -41,11 +43,19 @@ REQUIRED_THEOREMS = [
     'Yaql.Props.C20Cal.ord2ymd_ymd2ord', 'Yaql.Props.C20Cal.ymd2ord_ord2ymd', 'Yaql.Props.C20Cal.build_fields',
     'Yaql.Props.C20Cal.date_time_split',
     'Yaql.Props.C20Gen.datetime_params_convert', 'Yaql.Props.C20Gen.modelled_signatures',
+    'Yaql.Props.C20.units_float', 'Yaql.Props.C20.tsUnitF_single', 'Yaql.Props.C20.tsUnitF_exact', 'Yaql.Props.C20.tsUnitF_mono',
+    'Yaql.Props.C20.tsUnitF_value', 'Yaql.Props.C20.timestamp_float', 'Yaql.Props.C20.timestamp_float_roundtrip',
+    'Yaql.Props.C20.tsDivTs_float', 'Yaql.Props.C20.ts_scale_float',
+    'Yaql.Props.FloatRound.roundRat_nearest', 'Yaql.Props.FloatRound.roundRat_exact', 'Yaql.Props.FloatRound.roundRat_tie_even',
+    'Yaql.Props.FloatRound.roundRat_mono', 'Yaql.Props.FloatRound.roundRat_congr', 'Yaql.Props.FloatRound.divBits_pos',
 ]
 TRUSTED = ['CPython datetime/timedelta as the carrier of the real values (fixed-offset tzinfo only)',
-           'the platform float steps: float(int), int / float, float -> microseconds rounding of '
-           'datetime.fromtimestamp and timedelta(microseconds=float) (the harness only feeds inputs on which these '
-           'agree with exact rational rounding, and counts the ones it had to skip)',
+           'one platform float step: the float -> microseconds rounding of datetime.fromtimestamp (a float multiplication '
+           'by 1e6 inside _PyTime_ObjectToTimeval; the harness only feeds timestamps on which it agrees with exact rational '
+           'rounding).  NOT trusted any more: float(int), int / int, float / float, float * float and '
+           'timedelta(microseconds=<float>) - the unit properties, .timestamp, ts / ts, ts * number and ts / number are '
+           'modelled step by step (FloatRound.roundRat / divBits / mulBits, roundRat proved correctly rounded) and compared '
+           'bit for bit / microsecond for microsecond on arbitrary floats',
            'harness/gens/datetimedefs.py reads the declared parameter types of the live registrations']
 ASSUMPTIONS = ['tzinfo objects are fixed-offset (dateutil tzutc/tzoffset, datetime.timezone, a custom fixed class); '
                'DST zones with PEP 495 folds are outside the model',
@@ -444,6 +454,8 @@ def model_value(m):
         return ['b', m['b']]
     if 'q' in m:
         return ['q', Fraction(m['q'][0], m['q'][1]), m['q'][0], m['q'][1]]
+    if 'fb' in m:      # a double computed by the model (FloatRound.roundRat / divBits), IEEE bits
+        return ['fb', struct.unpack('>d', struct.pack('>Q', int(m['fb'])))[0]]
     return ['err', m.get('err', '?')]
 
 
@@ -452,6 +464,10 @@ def same(real, other):
     equal to the correctly rounded quotient (1 ulp allowed) while numerator and denominator are exactly
     representable; beyond 2^53 the code's float(int) conversions of the operands round first, which can move the
     quotient by up to 3 ulps (0.5 + 1 + 1 + 0.5)"""
+    if other[0] == 'fb':     # model: every float step of the code is modelled exactly -> bit for bit
+        if os.environ.get('VERIF_C20_NO_BITS'):     # development aid (dev_float_mutants.py): what the old tolerance saw
+            return real[0] == 'fl' and close(real[1], Fraction(other[1]), 3)
+        return real[0] == 'fl' and struct.pack('>d', real[1]) == struct.pack('>d', other[1])
     if other[0] == 'q':
         fr = other[1]
         big = len(other) < 4 or abs(other[2]) >= 2 ** 53 or abs(other[3]) >= 2 ** 53     # the unreduced operands
@@ -487,6 +503,8 @@ def show(c):
             return repr(c)
     if c[0] == 'ts':
         return 'timespan(%d us)' % c[1]
+    if c[0] == 'fb':
+        return '%r (bits %016x)' % (c[1], struct.unpack('>Q', struct.pack('>d', c[1]))[0])
     if c[0] == 'q':
         return '%r (= %s/%s)' % (c[1].numerator / c[1].denominator, c[1].numerator, c[1].denominator)
     return repr(c[1])
@@ -717,6 +735,15 @@ def ref_us(n):
     return r[1] if r and r[0] == 'ts' else None
 
 
+def float_step_inexact(fl, exact):
+    """the platform's float result, rounded to microseconds, differs from the exactly computed one (counted only: the
+    model performs the float steps itself)"""
+    try:
+        return rhe(Fraction(fl())) != rhe(exact())
+    except (OverflowError, ValueError, ZeroDivisionError):
+        return True
+
+
 def gen_ts(rng, depth, hist):
     r = rng.random()
     if depth <= 0 or r < 0.35:
@@ -734,33 +761,22 @@ def gen_ts(rng, depth, hist):
     t = gen_ts(rng, depth - 1, hist)
     us = ref_us(t)
     if r < 0.90:
-        # ts * n, n * ts
-        if rng.random() < 0.6 or us is None or abs(us) >= 2 ** 53:
+        # ts * n, n * ts: an int factor is exact; a float factor is float(us) * x (one IEEE multiplication), then
+        # timedelta(microseconds=<float>) - every step is in the model (tsMulNumF), so any float may be fed
+        if rng.random() < 0.5:
             n = L_i(rng.choice([0, 1, -1, 2, 3, 7, -5, 1000, 10 ** 6, rng.randrange(-100, 100)]), rng.random() < 0.2)
         else:
-            n = None
-            for _ in range(10):
-                x = rng.choice([0.5, 1.5, -0.5, 0.25, 2.5, 1e-3, 0.1, 1 / 3, rng.uniform(-4, 4), 1e6, 1e-6])
-                p = float(us) * x
-                if rhe(Fraction(p)) == rhe(Fraction(us) * Fraction(x)):
-                    n = L_fl(x)
-                    break
-                hist['float-step-skipped'] = hist.get('float-step-skipped', 0) + 1
-            if n is None:
-                n = L_i(2)
+            x = rng.choice([0.5, 1.5, -0.5, 0.25, 2.5, 1e-3, 0.1, 1 / 3, rng.uniform(-4, 4), 1e6, 1e-6, 0.0, -0.0, 1e-300,
+                            2.0 ** -1074, 1e300, -1e300, 0.1 + rng.random() * 1e-9])
+            n = L_fl(x)
+            if us is not None and float_step_inexact(lambda: float(us) * x, lambda: Fraction(us) * Fraction(x)):
+                hist['float-step-inexact'] = hist.get('float-step-inexact', 0) + 1
         return C('*', [t, n] if rng.random() < 0.5 else [n, t])
-    # ts / n
-    for _ in range(10):
-        x = rng.choice([1, 2, 3, -2, 7, 1000, 10 ** 6, 0, rng.randrange(-50, 50), 0.5, 1.5, -0.25, 0.0, 1e3,
-                        rng.uniform(-4, 4)])
-        if us is None or x == 0:
-            break
-        q = us / x
-        if rhe(Fraction(q)) == rhe(Fraction(us) / Fraction(x)):
-            break
-        hist['float-step-skipped'] = hist.get('float-step-skipped', 0) + 1
-    else:
-        return t        # so large that every quotient leaves the exactly representable range
+    # ts / n: int / int is one correctly rounded division, int / float is float(us) then one IEEE division (tsDivNumF)
+    x = rng.choice([1, 2, 3, -2, 7, 1000, 10 ** 6, 0, rng.randrange(-50, 50), 0.5, 1.5, -0.25, 0.0, 1e3, 1e-300, 3e-9,
+                    rng.uniform(-4, 4), 1 / 3, 10 ** 20 + 1])
+    if us is not None and x != 0 and float_step_inexact(lambda: us / x, lambda: Fraction(us) / Fraction(x)):
+        hist['float-step-inexact'] = hist.get('float-step-inexact', 0) + 1
     return C('/', [t, L_fl(x) if isinstance(x, float) else L_i(x, rng.random() < 0.2)])
 
 
@@ -1213,6 +1229,9 @@ def run(env, res):
 
     if env['replay']:
         rp = json.load(open(env['replay']))['case']
+        if rp.get('section') == 'floatround':
+            floatref.replay(env, res, rp)
+            return res
         if rp['kind'] == 'tree':
             t = rp['tree']
             res.case(common.digest(t), True, sample=to_yaql(t, {}))
@@ -1276,8 +1295,9 @@ def run(env, res):
                 report_tree(t, j)
                 if len(res.failures) >= 12:
                     break
+    fr_hist = floatref.run_section(env, res, ID, 500 if tier == 'quick' else 6000)
     res.extra['histogram'] = dict(constructs=dict(sorted(hist.items())), outcomes=dict(sorted(out_kinds.items())),
-                                  law_instances=law_hist, trees=done)
+                                  law_instances=law_hist, trees=done, floatround=fr_hist)
     return res
 
 
@@ -1287,7 +1307,12 @@ LEVEL_TEXT = ('Lean 4 theorems over a code-shaped model of date_time.py on top o
               '(d + t) - t = d, (d + t) - d = t, d2 - (d2 - d1) = d1; = != < <= > >= on datetimes are those of the '
               'instants; d.utc is the same instant at offset zero; datetime(s, o).timestamp = s and '
               'datetime(d.timestamp, d.offset) = d on microsecond-exact rationals; the unit properties are exact '
-              'rationals of one microsecond count and timespan(microseconds => x.microseconds) = x; a value without '
+              'rationals of one microsecond count and timespan(microseconds => x.microseconds) = x; the DOUBLES returned are '
+              'modelled too (C20Float over FloatRound.roundRat, the correctly rounded rational -> binary64 conversion proved '
+              'nearest / ties-to-even / exact / monotone): x.hours is float(x.microseconds) / 3600000000.0 - two correctly rounded '
+              'steps, one rounding of the exact quotient up to 2**53 us (units_float, tsUnitF_single), exact on whole units, '
+              'monotone for all x; .timestamp is ONE correctly rounded division microseconds / 10**6 (timestamp_float) and '
+              'datetime(s, o).timestamp is the double s itself for microsecond-exact s (timestamp_float_roundtrip); a value without '
               'zone is treated as the same wall clock at UTC by every function whose parameter is declared '
               'yaqltypes.DateTime(), and the field readers do not depend on the zone; the transcribed calendar is a '
               'bijection between the dates of years 1..9999 and their ordinals, so datetime(y, m, d, ...) is read back '
@@ -1298,8 +1323,12 @@ LEVEL_TEXT = ('Lean 4 theorems over a code-shaped model of date_time.py on top o
               'also checked on real results alone and against Python\'s own aware datetime arithmetic.')
 LEVEL_NOTE = ('trusted: Lean kernel; hand-written model Yaql/Model/DateTime.lean (offsets in microseconds, fixed-offset '
               'zones, calendar transcribed from CPython _pydatetime - proved to be a bijection dates <-> ordinals in C20Cal); the '
-              'float division/rounding steps of the platform are explicit: theorems speak of exact rationals, the '
-              'harness compares floats with the correctly rounded rational within 1 ulp and feeds float inputs only '
-              'where platform rounding equals exact rounding.  format/parse, now, localtz are not modelled.')
+              'float-valued results (unit properties, .timestamp, ts / ts) are computed by the model as IEEE doubles '
+              '(float(int), int / int and float / float = FloatRound.roundRat / divBits) and compared with the real results BIT FOR '
+              'BIT; the property-level oracle on the real code alone keeps "up to float rounding" (1 ulp, 3 ulps beyond 2**53 us). '
+              'ts * number and ts / number run through the modelled float steps too (any float is fed; the histogram counts the '
+              'cases where the float result differs from exact rational rounding).  Still outside the model: the float -> '
+              'microseconds rounding of fromtimestamp (inputs fed only where platform rounding equals exact rounding).  '
+              'format/parse, now, localtz are not modelled.')
 TECHNIQUE = 'Lean 4 proof (linear integer arithmetic) + kernel-decided table of declared parameter types + differential evaluation of expression trees'
 DESIGN_REF = 'DESIGN.md section 5, C20'
